@@ -5,9 +5,10 @@
    bits_wf, tokens, rfc4648_canonical = b64_encode, utf8_chars, ...) are in TypesMore.v. Values are NUL-free texts.
    The binary model follows /repo commit c0ee3aa (canonical string re-encoded when the unused bits are not zero), the
    UTF-8 check /repo commit d2cc93f (noncharacters refused).
-   Not covered here: patterns (C18), LYB encoding of these types, identityref / leafref / instance-identifier and
+   Not covered here: patterns (C18), LYB encoding of these types, identityref / leafref, the resolution of
+   instance-identifier paths against the schema (only their canonical string: IidCanon.v, last section) and
    the derived inet / yang types (searched by the SourceIndep oracle only). *)
-From LY Require Import Base TypesMisc TypesMiscP IntLex IntLexP Utf8 TypesMore TypesMoreP.
+From LY Require Import Base TypesMisc TypesMiscP IntLex IntLexP Utf8 TypesMore TypesMoreP PathQuote PathQuoteP IidCanon IidCanonP.
 Local Open Scope N_scope.
 
 (* ====================== enumeration (RFC 7950 9.6) ====================== *)
@@ -276,6 +277,27 @@ Theorem C03_union_eq_iff_canon_refuted :
 Proof. exact union_eq_iff_canon_refuted. Qed.
 Print Assumptions C03_union_eq_iff_canon_refuted.
 
+(* What does hold: when no earlier member accepts the canonical string of a value that a later member stores
+   (union_separated), the canonical string is stored by the same member as the same value, and two stored values are equal
+   exactly when their canonical strings are equal. The condition holds whenever only the first member is an integer type
+   (enumeration and string members keep the text as canonical string); the refutation above has an integer member after a
+   string member. *)
+Theorem C03_union_canon_idempotent_separated :
+  forall ms s v, union_separated ms -> union_store ms s = Ok v -> union_store ms (union_canon v) = Ok v.
+Proof. exact union_canon_store_separated. Qed.
+Print Assumptions C03_union_canon_idempotent_separated.
+
+Theorem C03_union_eq_iff_canon_separated :
+  forall ms s1 s2 a b, union_separated ms -> union_store ms s1 = Ok a -> union_store ms s2 = Ok b ->
+    (union_compare a b = true <-> union_canon a = union_canon b).
+Proof. exact union_eq_iff_canon_separated. Qed.
+Print Assumptions C03_union_eq_iff_canon_separated.
+
+Theorem C03_union_separated_ints_first :
+  forall ms, Forall not_int (tl ms) -> union_separated ms.
+Proof. exact union_separated_ints_first. Qed.
+Print Assumptions C03_union_separated_ints_first.
+
 (* the sort callback is a strict total order on the values of the union whose equality is the compare callback *)
 Theorem C03_union_sort_total_order :
   forall ms, ms_wf ms ->
@@ -342,3 +364,45 @@ Example C03_ipv4_prefix_example :
   ip4p_store 3232300599 0 = (0, 0) /\ ip4p_store 3232300599 8 = (3221225472, 8) /\
   ip4p_store 3232300599 23 = (3232300544, 23) /\ ip4p_store 3232300599 32 = (3232300599, 32).
 Proof. repeat split; vm_compute; reflexivity. Qed.
+
+(* ====================== instance-identifier / node-instance-identifier canonical string ====================== *)
+(* Model IidCanon.v on top of PathQuote.v: instanceid_path2str() in the JSON / canonical format (module printed where it
+   changes; key, leaf-list and position predicates; the quote chosen for EVERY predicate value) and the simple-path reader
+   with inherited modules and the Literal tokenizer. seg_wf: module, node and key names are identifiers, every predicate
+   value holds at most one kind of quote (a value with both cannot be written as an XPath literal, PathQuoteP). *)
+
+(* the printed canonical string is read back as the same path *)
+Theorem C03_iid_parse_print :
+  forall p, Forall seg_wf p -> iid_parse (iid_print p) = Some p.
+Proof. exact iid_parse_print. Qed.
+Print Assumptions C03_iid_parse_print.
+
+(* canonicalisation is idempotent: parse (print p) = p, hence print (parse (print p)) = print p *)
+Theorem C03_iid_canon_idempotent :
+  forall p, Forall seg_wf p ->
+    iid_parse (iid_print p) = Some p /\
+    match iid_parse (iid_print p) with Some q => iid_print q = iid_print p | None => False end.
+Proof. intros p H. split; [exact (iid_parse_print p H)|exact (iid_canon_idempotent p H)]. Qed.
+Print Assumptions C03_iid_canon_idempotent.
+
+(* equal canonical strings denote equal paths *)
+Theorem C03_iid_eq_iff_canon :
+  forall p q, Forall seg_wf p -> Forall seg_wf q -> (iid_print p = iid_print q <-> p = q).
+Proof. intros p q Hp Hq. split; [exact (iid_print_inj p q Hp Hq)|intros ->; reflexivity]. Qed.
+Print Assumptions C03_iid_eq_iff_canon.
+
+(* regression of the seeded change C03-8 (quote variable set once): for /m:l[a=it's][b=say "hi"]/v the as-coded
+   printer round-trips, the hoisted-quote variant prints another string that is not read back as the path *)
+Theorem C03_iid_hoisted_quote_refuted :
+  Forall seg_wf c03_8_path /\
+  iid_parse (iid_print c03_8_path) = Some c03_8_path /\
+  c03_8_hoisted <> iid_print c03_8_path /\ iid_parse c03_8_hoisted <> Some c03_8_path.
+Proof. exact c03_8_regression. Qed.
+Print Assumptions C03_iid_hoisted_quote_refuted.
+
+(* /m:l[a="it's"][b='say "hi"']/v, module inherited on the second node *)
+Example C03_iid_example :
+  iid_print c03_8_path =
+    [47;109;58;108;91;97;61;34;105;116;39;115;34;93;91;98;61;39;115;97;121;32;34;104;105;34;39;93;47;118] /\
+  iid_print [([109], [108], [PPos 2; PLeaf [120]]); ([110], [119], [])] = [47;109;58;108;91;50;93;91;46;61;39;120;39;93;47;110;58;119].
+Proof. split; vm_compute; reflexivity. Qed.
